@@ -43,6 +43,46 @@ def brief(line):
 
 import time
 
+
+def conformance(d, rows, max_rounds=6):
+    """Pass B: replay the runs without Byzantine action through the replica model (spec/HotStuff.tla via Trace_R.tla).
+    Returns coverage fields; drift is a warning, never a verdict."""
+    modelled_steps, modelled_runs = 0, 0
+    for rr in split_runs(rows):
+        if rr[0]["op"] != "init" or rr[0]["rs"] not in ("chainedhotstuff", "simplehotstuff") or not (rr[0]["byz"] == [] or rr[0].get("crashOnly")):
+            continue
+        k = next((i for i, x in enumerate(rr) if x["op"] == "byz"), len(rr))
+        steps = sum(1 for x in rr[:k] if x["op"] == "step")
+        modelled_steps += steps
+        modelled_runs += 1 if steps else 0
+    drift = []
+    cur = rows
+    for _ in range(max_rounds):
+        vlib.write_ndjson(os.path.join(d, "trace.ndjson"), cur)
+        rt = vlib.tlc("Trace_R", cfg="Trace_R.cfg", cwd=d, workers=1, timeout=3000, heap="16g", stack="512m")
+        if rt.status == "ok":
+            break
+        if rt.status != "violation":
+            raise vlib.InfraError("conformance check: %r\n%s" % (rt, rt.out[-2000:]))
+        m = re.findall(r"^/\\ l = (\d+)$|^l = (\d+)$", rt.out, re.M)
+        l = int([a or b for a, b in m][-1]) if m else 0
+        if not l:
+            raise vlib.InfraError("conformance check: no position\n%s" % rt.out[-2000:])
+        line = cur[l - 1]
+        k = run_id(cur, l)
+        # the model's prediction is printed (ALIAS) with the state before the step
+        dm = re.findall(r"/\\ diff = (<<.*?>>)\n\n", rt.out, re.S)
+        drift.append({"run": {a: cur[k].get(a) for a in ("n", "rs", "byz", "lmode", "script")}, "step": l - k, "line": brief(line),
+                      "model_vs_log": re.sub(r"\s+", " ", dm[-2] if len(dm) >= 2 else (dm[-1] if dm else ""))[:1500]})
+        # drop that run, keep checking the others
+        end = next((i for i in range(l, len(cur)) if cur[i]["op"] == "init"), len(cur))
+        cur = cur[:k] + cur[end:]
+        if not cur:
+            break
+    return {"conformance_model": "spec/HotStuff.tla (replica model) via spec/Trace_R.tla", "conformance_steps_checked": modelled_steps,
+            "conformance_runs_checked": modelled_runs, "conformance_drift_runs": len(drift), "conformance_drift": drift[:3]}
+
+
 KEYS = {
     "C01": lambda line, rows, l: "agreement:%s" % rows[run_id(rows, l)]["rs"],
     "C03": lambda line, rows, l: "vote:%s" % rows[run_id(rows, l)]["rs"],
@@ -123,6 +163,7 @@ def run_property(prop, tier, seed, driver_args, rule, extra_cov=None, assumption
             rows = keep
             if not rows:
                 break
+        conf_cov = conformance(d, allrows)
         # panics inside replicas discredit nothing here but are reported (they belong to C10)
         panics = sum(1 for x in allrows if x["op"] == "step" and x["panic"])
     rc = v.finish()
@@ -149,6 +190,10 @@ def run_property(prop, tier, seed, driver_args, rule, extra_cov=None, assumption
         "view_increments": incs, "by_ruleset": by_rs, "replica_panics": panics, "checker_cmd": cmd,
     }
     cov.update(script_cov)
+    cov.update(conf_cov)
+    if conf_cov["conformance_drift_runs"]:
+        print("[%s] WARNING: %d run(s) deviate from the replica model spec/HotStuff.tla (conformance drift, not a verdict); first: %s" % (
+            prop, conf_cov["conformance_drift_runs"], json.dumps(conf_cov["conformance_drift"][0])[:700]))
     if script_cov.get("script_conformance_drift_count"):
         print("[%s] WARNING: %d TLC-generated scripts were not followed as the model predicts (conformance drift, not a verdict)" % (
             prop, script_cov["script_conformance_drift_count"]))
